@@ -168,7 +168,9 @@ func (o *Object) do(ctx context.Context, call *server.Call) error {
 	var c *capnp.Client
 	switch (flags >> FlagCapShift) & 3 {
 	case CapNewObject:
-		_, c = o.W.NewObject()
+		var no *Object
+		no, c = o.W.NewObject()
+		o.W.Log.Add(capsim.Event{Kind: "object-new", Hook: no.ID, Call: serial})
 	case CapSelf:
 		c = nil // (reserved)
 	case CapEchoParam:
@@ -342,6 +344,7 @@ type PeerReturn struct {
 	Serial  uint64    `json:"serial"`
 	Caps    []CapDesc `json:"caps,omitempty"` // results pointer i refers to capability i
 	RelParams bool    `json:"release_param_caps"`
+	ContentCap bool   `json:"content_cap,omitempty"` // the content is an interface pointer to capability 0 (a Bootstrap answer)
 }
 
 func (w *Wire) SendReturn(r PeerReturn) error {
@@ -363,6 +366,12 @@ func (w *Wire) SendReturn(r PeerReturn) error {
 		p, err := ret.NewResults()
 		if err != nil {
 			return err
+		}
+		if r.ContentCap {
+			if err := p.SetContent(capnp.NewInterface(p.Segment(), 0).ToPtr()); err != nil {
+				return err
+			}
+			return setCaps(p, r.Caps)
 		}
 		s, err := capnp.NewStruct(p.Segment(), capnp.ObjectSize{DataSize: 8, PointerCount: 2})
 		if err != nil {
